@@ -316,7 +316,18 @@ impl GraphMutator {
                     value,
                 } => {
                     let const_id = self.graph.add_constant_node(value);
-                    self.replace_value(output_id, const_id);
+                    // As for identity fusions, graph output IDs must be
+                    // preserved.
+                    if self.graph.output_ids().contains(&output_id) {
+                        self.add_operator(
+                            None,
+                            Arc::new(Identity {}),
+                            &[Some(const_id)],
+                            &[Some(output_id)],
+                        )
+                    } else {
+                        self.replace_value(output_id, const_id);
+                    }
                 }
             }
         }
